@@ -12,6 +12,7 @@
 //!                "unlisted": [target, ...],    //   removed from the ingredient's store with no redaction entry
 //!                "list": null | [target, ...]} //   the claim's redacted_assertions replaced by exactly this list
 //!           },
+//!    "sib": bool,                             // level 0 also carries same-label / prefix-label siblings (see SIBLINGS)
 //!    "post": [[level, i], ...]}               // after signing: payload bytes overwritten in place in the output asset
 //! target = {"m": level | "self" | "none", "a": assertion label}
 //! out: sign result; per manifest (chain order, top last): custom assertion labels present, redaction list (as
@@ -28,6 +29,7 @@ thread_local! {
     static CTX: Arc<Context> = Arc::new(e2e::context(None));
     static CTX_NOVERIFY: Arc<Context> = Arc::new(e2e::context(Some(r#"{"verify": {"verify_after_sign": false}}"#)));
     static NONCE: RefCell<u64> = const { RefCell::new(0) };
+    static SIB: std::cell::Cell<bool> = const { std::cell::Cell::new(false) };
     #[allow(clippy::type_complexity)]
     static CHAINS: RefCell<HashMap<String, (Vec<u8>, Vec<String>, String, Value)>> = RefCell::new(HashMap::new());
 }
@@ -46,9 +48,27 @@ pub fn marker(nonce: &str, level: usize, i: usize) -> String {
 /// index of the assertion that carries the same label at every level
 pub const SHARED: usize = 9;
 
+/// with "sib": level 0 also carries three assertions labelled `com.verif.dup` (stored as dup, dup__1, dup__2; indices
+/// 20..22) and two whose labels are prefixes of one another (`org.va` index 30, `org.vab` index 31)
+pub const SIBLINGS: [(usize, &str); 5] = [(20, "com.verif.dup"), (21, "com.verif.dup"), (22, "com.verif.dup"), (30, "org.va"), (31, "org.vab")];
+
 fn custom_assertions(nonce: &str, level: usize, n: usize) -> Vec<Value> {
     let mut v: Vec<Value> = (0..n).map(|i| json!({"label": format!("com.verif.a{level}_{i}"), "data": {"secret": marker(nonce, level, i)}})).collect();
     v.push(json!({"label": "com.verif.shared", "data": {"secret": marker(nonce, level, SHARED)}}));
+    if level == 0 && SIB.with(|s| s.get()) {
+        for (i, l) in SIBLINGS {
+            v.push(json!({"label": l, "data": {"secret": marker(nonce, level, i)}}));
+        }
+    }
+    v
+}
+
+fn marker_indices(level: usize, n: usize) -> Vec<usize> {
+    let mut v: Vec<usize> = (0..n).collect();
+    v.push(SHARED);
+    if level == 0 && SIB.with(|s| s.get()) {
+        v.extend(SIBLINGS.iter().map(|s| s.0));
+    }
     v
 }
 
@@ -107,7 +127,7 @@ fn read_back(format: &str, bytes: &[u8], labels: &[String], nonce: &str, levels:
     let found: Vec<Value> = levels
         .iter()
         .enumerate()
-        .flat_map(|(l, n)| (0..*n).chain(std::iter::once(SHARED)).map(move |i| (l, i)))
+        .flat_map(|(l, n)| marker_indices(l, *n).into_iter().map(move |i| (l, i)))
         .map(|(l, i)| {
             let m = marker(nonce, l, i);
             json!([l, i, bytes.windows(m.len()).any(|w| w == m.as_bytes())])
@@ -126,7 +146,7 @@ fn read_back(format: &str, bytes: &[u8], labels: &[String], nonce: &str, levels:
                 }
                 let mut present: Vec<String> = m["assertions"]
                     .as_array()
-                    .map(|a| a.iter().filter_map(|x| x["label"].as_str()).filter(|s| s.starts_with("com.verif.")).map(|s| s.to_string()).collect())
+                    .map(|a| a.iter().filter_map(|x| x["label"].as_str()).filter(|s| s.starts_with("com.verif.") || s.starts_with("org.v")).map(|s| s.to_string()).collect())
                     .unwrap_or_default();
                 present.sort();
                 // payloads reported for the custom assertions
@@ -206,7 +226,9 @@ pub fn run(case: &Value) -> Value {
     });
     let levels: Vec<usize> = case["levels"].as_array().map(|a| a.iter().map(|x| x.as_u64().unwrap_or(0) as usize).collect()).unwrap_or_else(|| vec![1]);
     // the chain below the redacting manifest is built once per (format, layout) and process
-    let key = format!("{fmt}:{levels:?}");
+    let sib = case["sib"].as_bool().unwrap_or(false);
+    SIB.with(|s| s.set(sib));
+    let key = format!("{fmt}:{levels:?}:{sib}");
     let cached = CHAINS.with(|m| m.borrow().get(&key).cloned());
     let (asset, labels_chain, nonce, before) = match cached {
         Some(t) => t,
